@@ -21,6 +21,9 @@ enum Fault {
     ShiftIds,
     /// two faults at once: chunk i dropped and chunk j duplicated (the count is right again)
     DropDup(usize, usize),
+    /// chunk i keeps its payload but carries another chunk's id (so one id is missing and one is doubled while,
+    /// in arrival order, the payload would still be the right one)
+    Relabel(usize, usize),
 }
 
 struct Scenario {
@@ -88,6 +91,7 @@ fn build_chunks(payload: &[u8], sizes: &[usize], fault: Fault) -> Vec<Vec<u8>> {
             Fault::ForeignChip(j) if j == i => c.chip = 2,
             Fault::ToggleEom(j) if j == i => c.flags ^= 1,
             Fault::ShiftIds => c.chunk_id += 1,
+            Fault::Relabel(j, id) if j == i => c.chunk_id = id as u16,
             _ => {}
         }
         out.push(ref_chunk_encode(&c));
@@ -166,15 +170,19 @@ pub fn run(args: &Args) -> i32 {
                     for j in 0..n {
                         if j != i {
                             faults.push(Fault::DropDup(i, j));
+                            if j + 1 == i || j == i + 1 || j == 0 || j + 1 == n {
+                                faults.push(Fault::Relabel(i, j));
+                            }
                         }
                     }
+                    faults.push(Fault::Relabel(i, n));
                 }
             }
             if pi == 4 {
                 // the large packet: keep one fault of each kind per position class
                 faults.retain(|f| match f {
                     Fault::None | Fault::ShiftIds => true,
-                    Fault::Drop(i) | Fault::Dup(i) | Fault::ForeignBoard(i) | Fault::ForeignChip(i) | Fault::ToggleEom(i) | Fault::Resize(i, _) | Fault::DropDup(i, _) => *i == 0 || *i + 1 >= n.saturating_sub(1),
+                    Fault::Drop(i) | Fault::Dup(i) | Fault::ForeignBoard(i) | Fault::ForeignChip(i) | Fault::ToggleEom(i) | Fault::Resize(i, _) | Fault::DropDup(i, _) | Fault::Relabel(i, _) => *i == 0 || *i + 1 >= n.saturating_sub(1),
                 });
             }
             for f in faults {
@@ -210,7 +218,7 @@ pub fn run(args: &Args) -> i32 {
     rep.cov("max_chunks_with_all_permutations", json!(max_all));
 
     rep.run("orders-x-faults", tot, 60, false,
-        "5 payloads (0/1/2 channels, undecodable, largest legal 81268-byte packet) x chunk size (every 1..=L for the small ones; 5 sizes for the large) x fault {none, ids shifted, drop i, duplicate i, foreign board i, foreign chip i, toggle EOM i, resize non-final i by +-1, drop i and duplicate j (<= 8 chunks)} x arrival orders (all m! for m <= bound, else identity/reversal/rotations/adjacent transpositions/move-to-front)",
+        "5 payloads (0/1/2 channels, undecodable, largest legal 81268-byte packet) x chunk size (every 1..=L for the small ones; 5 sizes for the large) x fault {none, ids shifted, drop i, duplicate i, foreign board i, foreign chip i, toggle EOM i, resize non-final i by +-1, drop i and duplicate j, chunk i carrying the id of a neighbour / the first / the last / one past the last (<= 8 chunks)} x arrival orders (all m! for m <= bound, else identity/reversal/rotations/adjacent transpositions/move-to-front)",
         |idx, loc| {
             let si = match prefix.binary_search(&idx) {
                 Ok(i) => i,
@@ -292,5 +300,6 @@ fn fault_kind(f: Fault) -> &'static str {
         Fault::Resize(..) => "resize",
         Fault::ShiftIds => "shift-ids",
         Fault::DropDup(..) => "drop-and-duplicate",
+        Fault::Relabel(..) => "relabel",
     }
 }
